@@ -178,6 +178,15 @@ class Ambient:
                              key="C18:%s:ambient-%s-value" % (name, mode))
 
 
+def call_plain(fn, *args):
+    """(value, None) or (None, exception), default numeric state only."""
+    try:
+        with np.errstate(all="ignore"):
+            return fn(*args), None
+    except Exception as e:  # noqa: BLE001
+        return None, e
+
+
 def call(fn, *args):
     """(value, None) or (None, exception); finite results are re-run under the ambient numeric states (class Ambient)."""
     try:
@@ -684,15 +693,166 @@ class Runner:
         if not ok:
             ctx.fail("oracle", "gen.MSF of two sets is not the MSF of each pair of columns", case, key="C18:MSF:columns")
 
+    # ---- large sets: MAC between sets with up to 1100 shapes, MCF / MSF with hundreds of modes (recipe-style cases:
+    # everything is regenerated from seed + sizes, so the case stays small and replayable)
+    @staticmethod
+    def large_sets(case):
+        rng = np.random.default_rng([int(case["seed"]), 18])
+        n, mX, mA = int(case["n"]), int(case["mX"]), int(case["mA"])
+
+        def cols(m):
+            Z = gauss(rng, n * m, bits=5, den=8.0).reshape(n, m)
+            Z[0, ~Z.any(axis=0)] = 1.0
+            return Z
+
+        X, A = cols(mX), cols(mA)
+        coll = []  # columns of A that are complex multiples of a column of X, placed beyond the first 256 where the set is that large
+        for j in sorted(set(k for k in (mA - 1, 256, 280, 511, 512, 700) if 0 <= k < mA)):
+            i = int(rng.integers(0, mX))
+            cj = scale_factor(rng)
+            A[:, j] = cj * X[:, i]
+            coll.append((i, j))
+        return X, A, coll
+
+    @staticmethod
+    def spread(m, k, rng):
+        """about k indices spread over all blocks of 256, with both sides of every block boundary and the last index."""
+        fixed = [0, 1, 254, 255, 256, 257, 280, 511, 512, 513, 767, 768, 1023, 1024, m - 2, m - 1]
+        idx = sorted(set(i for i in fixed if 0 <= i < m))
+        extra = [int(i) for i in rng.integers(0, m, size=max(0, k - len(idx)))]
+        return sorted(set(idx + extra))
+
+    def large(self, case):
+        ctx = self.ctx
+        Ambient.case = case
+        X, A, coll = self.large_sets(case)
+        n, mX, mA = X.shape[0], X.shape[1], A.shape[1]
+        ctx.count(case)
+        ctx.hist("large.mac", "%dx%d" % (mX, mA))
+        ctx.sample(case)
+        M, e = call(gen.MAC, X, A)  # also re-run under the ambient numeric states
+        if e is not None:
+            ctx.fail("oracle", "gen.MAC raised %s on sets of %d and %d shapes" % (type(e).__name__, mX, mA), case, key="C18:MAC:large-raises")
+            return
+        M = np.asarray(M)
+        if (mX, mA) == (1, 1) and M.shape == ():
+            M = M.reshape(1, 1)
+        if M.shape != (mX, mA):
+            ctx.fail("oracle", "gen.MAC shape %s for sets of %d and %d shapes" % (M.shape, mX, mA), case, key="C18:MAC:large-shape")
+            return
+        # ---- NumPy oracle on EVERY entry
+        nX, nA = np.einsum("ki,ki->i", X.conj(), X).real, np.einsum("kj,kj->j", A.conj(), A).real
+        D = np.abs(X.conj().T @ A) ** 2 / (nX[:, None] * nA[None, :])
+
+        def where(B):
+            i, j = np.unravel_index(int(np.nanargmax(B)), B.shape)
+            return "entry [%d,%d]" % (i, j)
+
+        if not finite(M):
+            ctx.fail("oracle", "gen.MAC has non-finite entries for non-zero shapes (%dx%d)" % (mX, mA), case, key="C18:MAC:large-not-finite")
+            return
+        if M.min() < -TOL or M.max() > 1 + TOL:
+            ctx.fail("oracle", "gen.MAC of %dx%d shapes outside [0,1]: min %r max %r at %s" % (mX, mA, M.min(), M.max(), where(M)), case, key="C18:MAC:large-bounds")
+        if np.abs(M - D).max() > TOL:
+            ctx.fail("oracle", "gen.MAC[i,j] is not |x_i^H a_j|^2/((x_i^H x_i)(a_j^H a_j)) for %dx%d shapes: %s is %r, definition %r"
+                     % (mX, mA, where(np.abs(M - D)), M[np.unravel_index(int(np.argmax(np.abs(M - D))), M.shape)], D[np.unravel_index(int(np.argmax(np.abs(M - D))), M.shape)]),
+                     case, key="C18:MAC:large-definition")
+        for i, j in coll:
+            if abs(M[i, j] - 1) > TOL:
+                ctx.fail("oracle", "gen.MAC[%d,%d] = %r for a column that is a complex multiple of the row shape (column %d of %d), property says 1"
+                         % (i, j, M[i, j], j, mA), case, key="C18:MAC:large-collinear")
+                break
+        Mt, e2 = call_plain(gen.MAC, A, X)
+        if e2 is not None or np.asarray(Mt).reshape(mA, mX).shape != (mA, mX) or not np.allclose(np.asarray(Mt).reshape(mA, mX).T, M, rtol=0, atol=TOL, equal_nan=False):
+            ctx.fail("oracle", "gen.MAC(A, X) is not the transpose of gen.MAC(X, A) for %dx%d shapes" % (mX, mA), case, key="C18:MAC:large-transpose")
+        srng = np.random.default_rng([int(case["seed"]), 19])
+        cX = np.array([scale_factor(srng) for _ in range(min(mX, 7))])[np.arange(mX) % min(mX, 7)]
+        cA = np.array([scale_factor(srng) for _ in range(min(mA, 11))])[np.arange(mA) % min(mA, 11)]
+        Ms, e3 = call_plain(gen.MAC, X * cX[None, :], A * cA[None, :])
+        if e3 is not None or not finite(Ms) or np.abs(np.asarray(Ms).reshape(mX, mA) - M).max() > TOL:
+            ctx.fail("oracle", "gen.MAC changes when every shape of the %dx%d sets is multiplied by its own non-zero complex factor" % (mX, mA), case, key="C18:MAC:large-scale")
+        # ---- the Coq model (entry-wise) on a sample of entries spread over all blocks, last row / column included
+        rows, colsj = self.spread(mX, 6, srng), self.spread(mA, 14, srng)
+        pick = [(i, j) for i in rows[: 3] + rows[-3:] for j in colsj][:: max(1, len(rows[: 3] + rows[-3:]) * len(colsj) // 40)]
+        pick = sorted(set(pick + [(mX - 1, mA - 1), (0, mA - 1)] + [(i, j) for i, j in coll]))
+        expr = 'showL (showRes showOQ) " " %s' % clist(["mac_vec_l %s %s" % (coq_vec(X[:, i]), coq_vec(A[:, j])) for i, j in pick])
+
+        def cb(s, M=M, pick=pick):
+            for (i, j), t in zip(pick, s.split(" ")):
+                w = opt_float(t) if t != "ShapeErr" else None
+                if w is None or abs(M[i, j] - w) > TOL:
+                    ctx.fail("correspondence", "gen.MAC[%d,%d] = %r for %dx%d shapes, model says %s" % (i, j, M[i, j], mX, mA, t), case, key="C18:MAC:large-corr")
+                    return
+
+        self.job(expr, cb)
+
+    def many_modes(self, case):
+        """gen.MCF / gen.MSF on sets with hundreds of modes (columns)."""
+        ctx = self.ctx
+        Ambient.case = case
+        rng = np.random.default_rng([int(case["seed"]), 20])
+        n, m = int(case["n"]), int(case["m"])
+        ctx.count(case)
+        ctx.hist("large.modes", m)
+        X = gauss(rng, n * m, bits=5, den=8.0).reshape(n, m) + (1 + 1j) / 8.0
+        for j in range(m):  # keep x^T x away from 0 (the known MSF finding is not the subject here)
+            while abs(np.dot(X[:, j], X[:, j])) < 1e-2 * np.vdot(X[:, j], X[:, j]).real:
+                X[:, j] = gauss(rng, n, bits=5, den=8.0) + (1 + 1j) / 8.0
+        for j in (m - 1, 256, 280):
+            if 0 <= j < m:
+                v = np.round(X[:, j].real * 8 + 1) / 8.0
+                v[0] = v[0] if v.any() else 1.0
+                X[:, j] = scale_factor(rng) * v  # collinear columns beyond the first 256: MCF 0
+        r = rng.integers(-40, 41, size=m) / 8.0 * 2.0 ** rng.integers(-6, 7, size=m)
+        r[r == 0] = 1.5
+        F, e = call(gen.MCF, X)
+        re, im = X.real, X.imag
+        sxx, syy, sxy = (re * re).sum(0), (im * im).sum(0), (re * im).sum(0)
+        want = 1 - ((sxx - syy) ** 2 + 4 * sxy**2) / (sxx + syy) ** 2
+        if e is not None or np.asarray(F).shape != (m,) or not finite(F):
+            ctx.fail("oracle", "gen.MCF of a set of %d modes: exception, wrong shape or non-finite" % m, case, key="C18:MCF:many-shape")
+            F = None
+        else:
+            F = np.asarray(F)
+            if F.min() < -TOL or F.max() > 1 + TOL or np.abs(F - want).max() > TOL:
+                k = int(np.argmax(np.abs(F - want)))
+                ctx.fail("oracle", "gen.MCF of a set of %d modes: mode %d is %r, closed form %r" % (m, k, F[k], want[k]), case, key="C18:MCF:many-definition")
+        S, e = call(gen.MSF, X, X * r[None, :])
+        if e is not None or np.asarray(S).shape != (m,) or not finite(S):
+            ctx.fail("oracle", "gen.MSF of two sets of %d modes: exception, wrong shape or non-finite" % m, case, key="C18:MSF:many-shape")
+            S = None
+        else:
+            S = np.asarray(S)
+            if np.abs(S - r).max() > 1e-7 * np.abs(r).max() or (np.abs(S - r) > 1e-7 * np.maximum(1.0, np.abs(r))).any():
+                k = int(np.argmax(np.abs(S - r) / np.maximum(1.0, np.abs(r))))
+                ctx.fail("oracle", "gen.MSF(X, X diag(c)) of %d modes: mode %d is %r, property says c = %r" % (m, k, S[k], r[k]), case, key="C18:MSF:many-value")
+        pick = self.spread(m, 16, rng)
+        expr = 'showL (fun o => o) " " %s' % clist(
+            ['showOQ (mcf_l %s) ++ "," ++ showRes showOQ (msf_l %s %s)' % (coq_vec(X[:, j]), coq_vec(X[:, j]), coq_vec(r[j] * X[:, j])) for j in pick])
+
+        def cb(s, F=F, S=S, pick=pick):
+            for j, t in zip(pick, s.split(" ")):
+                a, b = t.split(",", 1) if t.count(",") == 1 else (t.split(",")[0], ",".join(t.split(",")[1:]))
+                wa, wb = opt_float(a), (opt_float(b) if b != "ShapeErr" else None)
+                if F is not None and (wa is None or abs(F[j] - wa) > TOL):
+                    ctx.fail("correspondence", "gen.MCF mode %d of %d = %r, model says %s" % (j, len(F), F[j], a), case, key="C18:MCF:many-corr")
+                    return
+                if S is not None and (wb is None or abs(S[j] - wb) > 1e-7 * max(1.0, abs(wb))):
+                    ctx.fail("correspondence", "gen.MSF mode %d of %d = %r, model says %s" % (j, len(S), S[j], b), case, key="C18:MSF:many-corr")
+                    return
+
+        self.job(expr, cb)
+
     def dispatch(self, case):
-        getattr(self, {"shape": "shape", "mac": "mac", "msf": "msf", "columns": "columns"}[case["kind"]])(case)
+        getattr(self, {"shape": "shape", "mac": "mac", "msf": "msf", "columns": "columns", "large": "large", "many-modes": "many_modes"}[case["kind"]])(case)
 
 
 def run(ctx):
     rng = ctx.np_rng
     ctx.extra["rule"] = ("cases = single shapes (random / exactly collinear / zero components / unit-normalised / nearly collinear / maximally complex: "
                          "travelling waves exp(2 pi i k/n), exp(i k theta), exact equal-variance zero-covariance blocks, constant modulus, one or two "
-                         "non-zero components; each with a scale "
+                         "non-zero components; large sets: MAC between 1..1100 x 1..1100 shapes and MCF/MSF with 257..1100 modes, judged on every entry by the NumPy oracle "
+                         "and on ~40 entries spread over all blocks of 256 by the model; each with a scale "
                          "factor 2^k * Gaussian rational), pairs of shape sets for MAC (non-square, ~15% malformed), MSF pairs; non-trivial = "
                          "not the zero vector / not a dimension mismatch; distinct by hash of the inputs; every stream also in other storage forms "
                          "(int32/int64/float32/complex64 arrays, (n,1) columns, mixed dtypes between the two arguments; lists are rejected by all five functions)")
@@ -889,4 +1049,12 @@ def run(ctx):
         X = np.stack([2 * int_vec(n, -4, 4) for _ in range(m)], axis=1).astype(complex)
         r = rng.choice([-1.5, -0.5, 0.5, 1.5, 2.5], size=m)
         R.columns(dict(kind="columns", X=cmat(X), r=r.tolist(), form=pick_form(rng, True)))
+    # ---- large sets (QUICK too): sizes around the multiples of 256, few components
+    sizes = [(1, 257), (2, 1100), (3, 300), (257, 2), (300, 255), (256, 257), (257, 256), (1100, 1), (513, 3), (255, 300), (2, 513), (1, 1)]
+    if not ctx.quick():
+        sizes += [(513, 300), (300, 1100), (1100, 257), (257, 513), (255, 256), (256, 255), (2, 2)]
+    for k, (mX, mA) in enumerate(sizes):
+        R.large(dict(kind="large", seed=int(rng.integers(0, 2**31)), n=int(rng.integers(2, 5)), mX=mX, mA=mA))
+    for m in ([257, 300, 513] if ctx.quick() else [2, 255, 256, 257, 300, 513, 1100]):
+        R.many_modes(dict(kind="many-modes", seed=int(rng.integers(0, 2**31)), n=int(rng.integers(2, 6)), m=m))
     R.flush()
